@@ -664,6 +664,54 @@ func cmdReplay(args []string) int {
 		overlayFile = filepath.Join(workDir, "overlay.json")
 		os.WriteFile(overlayFile, ob, 0o644)
 	}
+	noNative := false
+	var hspec *HarnessSpec
+	for i := range spec.Harnesses {
+		if spec.Harnesses[i].Func == rf.Harness {
+			hspec = &spec.Harnesses[i]
+			noNative = hspec.NoNative
+		}
+	}
+	if rf.Kind == "race" {
+		// a lockset violation is a property of all monitored paths: re-run the check
+		fmt.Println("lockset violation: re-running the quick check of", rf.Property)
+		return cmdCheck([]string{rf.Property, "--tier", "quick", "--no-evidence"})
+	}
+	if noNative && hspec != nil {
+		// interpreter replay on the recorded draws (stubbed environment)
+		var overlay map[string][]byte
+		if spec.Overlay != nil {
+			overlay, _ = spec.Overlay()
+		}
+		prog, err := sym.Load(harnessDir, overlay, spec.Pkg)
+		if err != nil {
+			fmt.Fprintln(os.Stderr, "load:", err)
+			return 2
+		}
+		cfg := defaultConfig()
+		cfg.Tier = rf.Tier
+		if hspec.Tune != nil {
+			hspec.Tune(&cfg, rf.Tier > 0)
+		}
+		e := sym.NewEngine(prog.Prog, cfg)
+		if err := e.Bind(prog, rf.Harness); err != nil {
+			fmt.Fprintln(os.Stderr, err)
+			return 2
+		}
+		if _, err := e.RunConcrete(0, [][]sym.Draw{rf.Draws}); err != nil {
+			fmt.Fprintln(os.Stderr, err)
+			return 2
+		}
+		for _, v := range e.Violations {
+			if v.Kind == rf.Kind && v.Label == rf.Label {
+				fmt.Printf("REPLAY (interpreter, environment stubbed) reproduced %s:%s - %s\n", v.Kind, v.Label, v.Msg)
+				fmt.Printf("VIOLATION property=%s replay=%s\n", rf.Property, path)
+				return 1
+			}
+		}
+		fmt.Println("REPLAY (interpreter) did not reproduce the recorded violation")
+		return 0
+	}
 	bin, err := buildNative(spec, workDir, overlayFile)
 	if err != nil {
 		fmt.Fprintln(os.Stderr, err)
